@@ -9,6 +9,8 @@
   grammar without left recursion is NOT proved here; see DESIGN.md section 12).
 -/
 import Abnf.Complete
+import Abnf.Wf
+import Abnf.Mono
 namespace Abnf.C01
 
 /-- No underivable end offset is ever reported: every end listed by the engine model for any
@@ -37,6 +39,27 @@ theorem ends_iff_derivable (G : Grammar) (hG : GBoundsOk G) (hP : GPlain G) (f :
     (lparse G f s (.ref r) i = .fail → ∀ j, ¬ M G s (.ref r) i j) := by
   obtain ⟨h1, h2⟩ := derivable_end_is_reported G hG hP f s (.ref r) Plain.ref BoundsOk.ref i
   exact ⟨fun ms h j => ⟨reported_end_is_derivable G hG f s (.ref r) BoundsOk.ref i ms h j, h1 ms h j⟩, h2⟩
+
+/-- **C01, unconditional form.**  For every grammar of the valid domain - a well-formedness certificate
+exists (closed under the nullable declaration, ranks decrease along left references: no left recursion also
+through nullable prefixes; min ≤ max) and there are no flags/exclusions - for every rule, source and offset
+`0 ≤ i ≤ |s|`: with the explicit fuel `fuelFor` (or any larger one) the engine answers, and its answer lists
+exactly the RFC 5234 derivable ends (GrammarError only if an undefined rule is reached). -/
+theorem matching_conforms {G : Grammar} {N : Nat → Bool} {rank : Nat → Nat} {K D : Nat} (hw : WfCert G N rank K D)
+    (hP : GPlain G) (s : Src) (r i : Nat) (hi : i ≤ s.length) (f : Nat) (hf : fuelFor K D (s.length - i) K 0 ≤ f) :
+    (∃ ms, lparse G f s (.ref r) i = .ok ms ∧ ∀ j, j ∈ stops ms ↔ M G s (.ref r) i j) ∨
+    (lparse G f s (.ref r) i = .fail ∧ ∀ j, ¬ M G s (.ref r) i j) ∨
+    lparse G f s (.ref r) i = .gerr := by
+  have h0 : lparse G (fuelFor K D (s.length - i) K 0) s (.ref r) i ≠ .oof :=
+    lparse_total hw _ s (.ref r) i K hi BoundsOk.ref (fun r' _ => hw.rank_lt r') (Nat.le_refl _) (by simp [depth])
+      (by simp [depth])
+  have h1 := lparse_fuel_irrelevant G hf rfl h0
+  obtain ⟨c1, c2⟩ := ends_iff_derivable G hw.bounds hP f s r i
+  cases hres : lparse G f s (.ref r) i with
+  | oof => rw [hres] at h1; exact absurd h1.symm h0
+  | gerr => exact Or.inr (Or.inr rfl)
+  | fail => exact Or.inr (Or.inl ⟨rfl, c2 hres⟩)
+  | ok ms => exact Or.inl ⟨ms, rfl, c1 ms hres⟩
 
 /-! ### what the specification says, construct by construct (the clauses named in the property) -/
 
